@@ -169,6 +169,17 @@ def lm_crosscheck(case):
     trunc = float(sum(1 for r in range(b) if (y[r] != pad).any() and not (y[r] == eos).any()))
     chk('truncation_rate', 1, trunc, 'number of truncated sentences')
     chk('truncation_rate', 2, n_seq, 'denominator')
+  if which == 'stackoverflow' and case.get('second_model', True):
+    # history: another packaged model with a different vocabulary is created AFTER this one; this one's metrics must
+    # keep reading its own dataset's ids
+    from fedjax.models import stackoverflow as mm2
+    mm2.create_lstm_model(vocab_size=7, lstm_hidden_size=4, embed_size=2)
+    stats_after = _eval_stats(model, y, perfect)
+    for name in ('token_oov_rate', 'accuracy_in_vocab', 'accuracy_no_eos', 'num_tokens'):
+      for part in (1, 2) if len(stats[name]) > 2 else (1,):
+        a, b2 = float(np.asarray(stats[name][part]).sum()), float(np.asarray(stats_after[name][part]).sum())
+        require(a == b2, 'metric %s of an existing stackoverflow model changed after another model (other vocabulary size) '
+                'was created' % name, a, b2, case=case)
   # always-EOS prediction: accuracy_no_eos numerator must be 0
   always_eos = np.full((b, L, C), -5.0, np.float32)
   always_eos[:, :, eos] = 5.0
